@@ -504,6 +504,14 @@ def r2q(R, check=False, tol=100):
     kx = R[2, 1] - R[1, 2]  # Oz - Ay
     ky = R[0, 2] - R[2, 0]  # Ax - Nz
     kz = R[1, 0] - R[0, 1]  # Ny - Ox
+    k = np.r_[kx, ky, kz]  # skew part of R, equals 4 s v
+
+    if np.trace(R) > 0:
+        # rotation angle below 120 deg, s > 1/2: s is well conditioned, so the
+        # vector part comes from the skew part and s from the unit norm
+        # (sqrt(1 - s^2) would cancel for small angles)
+        v = k / (4.0 * qs)
+        return np.r_[math.sqrt(max(0, 1.0 - np.dot(v, v))), v]
 
     if (R[0, 0] >= R[1, 1]) and (R[0, 0] >= R[2, 2]):
         kx1 = R[0, 0] - R[1, 1] - R[2, 2] + 1  # Nx - Oy - Az + 1
@@ -535,7 +543,11 @@ def r2q(R, check=False, tol=100):
     if abs(nm) < tol * _eps:
         return eye()
     else:
-        return np.r_[qs, (math.sqrt(1.0 - qs ** 2) / nm) * kv]
+        # rotation angle of 120 deg or more: the vector part is well conditioned,
+        # so s comes from the skew part 4 s v (sqrt(trace + 1) loses half
+        # the digits near a half turn)
+        v = (math.sqrt(1.0 - qs ** 2) / nm) * kv
+        return np.r_[max(0, np.dot(k, v) / (4.0 * np.dot(v, v))), v]
 
 
 def slerp(q0, q1, s, shortest=False):
